@@ -231,6 +231,8 @@ htp_status_t htp_gzip_decompressor_decompress(htp_decompressor_t *drec1, htp_tx_
         return HTP_OK;
     }
 
+    HTP_VERIF_TRACE(d->tx->connp, 8, (intptr_t) d->tx, (intptr_t) drec);
+
 restart:
     if (consumed > d->len || d->len > UINT32_MAX ) {
         htp_log(d->tx->connp, HTP_LOG_MARK, HTP_LOG_ERROR, 0, "GZip decompressor: consumed > d->len");
@@ -364,6 +366,7 @@ restart:
             }
 
             // see if we want to restart the decompressor
+            HTP_VERIF_TRACE(d->tx->connp, 3, (intptr_t) d->tx, (intptr_t) drec);
             if (htp_gzip_decompressor_restart(drec,
                                               d->data, d->len, &consumed) == 1)
             {
